@@ -353,10 +353,24 @@ func (c *Conn) writeFrame(f Frame, control bool) error {
 		c.isWriting = true
 		defer func() { c.isWriting = false }()
 	}
-	simrt.BlockOn("ws.Write "+c.Name, []*uint64{&c.h, &c.peer.h}, func() bool { return !c.stalled })
+	if control && c.stalled {
+		// WriteControl has a deadline of its own: on a connection that makes no progress it gives up
+		return &net.OpError{Op: "write", Net: "fake", Err: errTimeout{}}
+	}
+	simrt.BlockOn("ws.Write "+c.Name, []*uint64{&c.h, &c.peer.h}, func() bool { return !c.stalled || c.closed || c.writeErr != nil })
 	if c.StallWrites != nil && c.StallWrites(f) {
 		c.stalled = true
-		simrt.BlockOn("ws.Write(stalled) "+c.Name, []*uint64{&c.h, &c.peer.h}, func() bool { return !c.stalled || c.closed })
+		// a write that makes no progress fails when the write deadline passes (net.Conn semantics); gorilla
+		// then keeps failing every later write
+		expired := false
+		if c.writeDeadline > vnow() {
+			simrt.NewTimer(c.writeDeadline-vnow(), 0, "ws-write-deadline:"+c.Name, func() { expired = true })
+		}
+		simrt.BlockOn("ws.Write(stalled) "+c.Name, []*uint64{&c.h, &c.peer.h}, func() bool { return !c.stalled || c.closed || expired })
+		if expired && c.stalled && !c.closed {
+			c.writeErr = &net.OpError{Op: "write", Net: "fake", Err: errTimeout{}}
+			return c.writeErr
+		}
 	}
 	if c.writeErr != nil {
 		return c.writeErr
@@ -410,3 +424,9 @@ func (c *Conn) CutLink() {
 	c.linkDown = true
 	c.peer.linkDown = true
 }
+
+type errTimeout struct{}
+
+func (errTimeout) Error() string   { return "i/o timeout" }
+func (errTimeout) Timeout() bool   { return true }
+func (errTimeout) Temporary() bool { return true }
